@@ -1,0 +1,246 @@
+// SPDX-FileCopyrightText: 2023 The Pion community <https://pion.ly>
+// SPDX-License-Identifier: MIT
+
+//go:build verif
+
+package rtcp
+
+// Executable oracles for the bounded lemmas (contracts marked `bounded` in verif_contracts.go). These ghost
+// functions are only ever *run* (on generated inputs, by the bounded harness); the deductive engine never
+// evaluates them, so they may use loops and build slices freely. They are written from the wire formats
+// (draft-holmer-rmcat-transport-wide-cc-extensions-01 section 3.1), not from the decoders.
+
+// specTWCC is an independent expansion of a transport-wide congestion control feedback packet.
+type specTWCC struct {
+	ok      bool     // the packet is well formed and lies inside its declared length
+	total   int      // declared length in octets
+	count   int      // packet status count
+	chunks  []uint16 // the status chunk words, in order
+	symbols []uint16 // one status symbol per reported packet (clipped to count): 0 not received, 1 small, 2 large, 3 reserved
+	dtypes  []uint16 // size class of each receive delta, in order (1 small, 2 large)
+	deltas  []int64  // receive deltas in microseconds (250 us units on the wire)
+}
+
+// specTWCCChunkSymbols: the symbols one status chunk word stands for (run lengths are not clipped here).
+func specTWCCChunkSymbols(w uint16) []uint16 {
+	var out []uint16
+	switch {
+	case w>>15 == 0: // run length chunk: T=0 | S(2) | run length(13)
+		for i := 0; i < int(w&0x1FFF); i++ {
+			out = append(out, w>>13&3)
+		}
+	case w>>14&1 == 0: // status vector chunk, 14 one-bit symbols, most significant first
+		for i := 13; i >= 0; i-- {
+			out = append(out, w>>uint(i)&1)
+		}
+	default: // status vector chunk, 7 two-bit symbols
+		for i := 6; i >= 0; i-- {
+			out = append(out, w>>uint(2*i)&3)
+		}
+	}
+	return out
+}
+
+func specTWCCDecode(raw []byte) specTWCC {
+	var r specTWCC
+	if len(raw) < 20 || raw[0]>>6 != 2 || raw[0]&31 != 15 || raw[1] != 205 {
+		return r
+	}
+	r.total = 4 * (int(be16(raw, 2)) + 1)
+	if r.total < 20 || r.total > len(raw) {
+		return r
+	}
+	r.count = int(be16(raw, 14))
+	pos := 20
+	for len(r.symbols) < r.count {
+		if pos+2 > r.total {
+			return r
+		}
+		w := be16(raw, pos)
+		pos += 2
+		r.chunks = append(r.chunks, w)
+		for _, s := range specTWCCChunkSymbols(w) {
+			if len(r.symbols) < r.count {
+				r.symbols = append(r.symbols, s)
+			}
+		}
+	}
+	for _, s := range r.symbols {
+		switch s {
+		case 1:
+			if pos+1 > r.total {
+				return r
+			}
+			r.dtypes = append(r.dtypes, 1)
+			r.deltas = append(r.deltas, 250*int64(raw[pos]))
+			pos++
+		case 2:
+			if pos+2 > r.total {
+				return r
+			}
+			r.dtypes = append(r.dtypes, 2)
+			r.deltas = append(r.deltas, 250*int64(int16(be16(raw, pos))))
+			pos += 2
+		}
+	}
+	r.ok = true
+	return r
+}
+
+// specTWCCChunkWord: the wire word of a decoded status chunk, from its fields.
+func specTWCCChunkWord(c PacketStatusChunk) (uint16, bool) {
+	switch v := c.(type) {
+	case *RunLengthChunk:
+		return v.PacketStatusSymbol&3<<13 | v.RunLength&0x1FFF, v.Type == TypeTCCRunLengthChunk && v.PacketStatusSymbol < 4 && v.RunLength < 1<<13
+	case *StatusVectorChunk:
+		w := uint16(1) << 15
+		if v.SymbolSize == TypeTCCSymbolSizeOneBit {
+			if len(v.SymbolList) != 14 {
+				return 0, false
+			}
+			for i, s := range v.SymbolList {
+				if s > 1 {
+					return 0, false
+				}
+				w |= s << uint(13-i)
+			}
+			return w, v.Type == TypeTCCStatusVectorChunk
+		}
+		if v.SymbolSize != TypeTCCSymbolSizeTwoBit || len(v.SymbolList) != 7 {
+			return 0, false
+		}
+		w |= 1 << 14
+		for i, s := range v.SymbolList {
+			if s > 3 {
+				return 0, false
+			}
+			w |= s << uint(2*(6-i))
+		}
+		return w, v.Type == TypeTCCStatusVectorChunk
+	}
+	return 0, false
+}
+
+// specTWCCMatches: the decoded packet p is what the independent expansion of raw says: fixed fields, every chunk,
+// and the receive deltas one-to-one and in order with the packets marked received, each with the size class of its
+// symbol and 250 us times the signed wire value found after the chunks.
+func specTWCCMatches(raw []byte, p TransportLayerCC) bool {
+	r := specTWCCDecode(raw)
+	if !r.ok || len(p.PacketChunks) != len(r.chunks) || len(p.RecvDeltas) != len(r.deltas) {
+		return false
+	}
+	if p.SenderSSRC != be32(raw, 4) || p.MediaSSRC != be32(raw, 8) || p.BaseSequenceNumber != be16(raw, 12) ||
+		int(p.PacketStatusCount) != r.count || p.ReferenceTime != be24(raw, 16) || p.FbPktCount != raw[19] {
+		return false
+	}
+	for k, c := range p.PacketChunks {
+		if w, ok := specTWCCChunkWord(c); !ok || w != r.chunks[k] {
+			return false
+		}
+	}
+	for k, d := range p.RecvDeltas {
+		if d == nil || d.Type != r.dtypes[k] || d.Delta != r.deltas[k] {
+			return false
+		}
+	}
+	return true
+}
+
+// specTWCCStatuses: per-packet status symbols of a decoded packet (chunks expanded and clipped to the count).
+func specTWCCStatuses(p TransportLayerCC) []uint16 {
+	var out []uint16
+	for _, c := range p.PacketChunks {
+		w, _ := specTWCCChunkWord(c)
+		for _, s := range specTWCCChunkSymbols(w) {
+			if len(out) < int(p.PacketStatusCount) {
+				out = append(out, s)
+			}
+		}
+	}
+	return out
+}
+
+func specTWCCSameDeltas(p, q TransportLayerCC) bool {
+	if len(p.RecvDeltas) != len(q.RecvDeltas) {
+		return false
+	}
+	for k := range p.RecvDeltas {
+		if p.RecvDeltas[k] == nil || q.RecvDeltas[k] == nil || *p.RecvDeltas[k] != *q.RecvDeltas[k] {
+			return false
+		}
+	}
+	return true
+}
+
+// specTWCCEqual: same fixed fields, same chunks (by wire word) and same deltas; the header is compared too
+// when withHeader is set.
+func specTWCCEqual(p, q TransportLayerCC, withHeader bool) bool {
+	if withHeader && p.Header != q.Header {
+		return false
+	}
+	if p.SenderSSRC != q.SenderSSRC || p.MediaSSRC != q.MediaSSRC || p.BaseSequenceNumber != q.BaseSequenceNumber ||
+		p.PacketStatusCount != q.PacketStatusCount || p.ReferenceTime != q.ReferenceTime || p.FbPktCount != q.FbPktCount ||
+		len(p.PacketChunks) != len(q.PacketChunks) {
+		return false
+	}
+	for k := range p.PacketChunks {
+		a, ok1 := specTWCCChunkWord(p.PacketChunks[k])
+		b, ok2 := specTWCCChunkWord(q.PacketChunks[k])
+		if !ok1 || !ok2 || a != b {
+			return false
+		}
+	}
+	return specTWCCSameDeltas(p, q)
+}
+
+// lemmaTWCCDecode (C13, C04): the decoder agrees with the independent expansion on every byte string.
+func lemmaTWCCDecode(raw []byte) (p TransportLayerCC, err error) {
+	err = p.Unmarshal(raw)
+	return p, err
+}
+
+// lemmaTWCCChunking (C13): two chunkings of the same status sequence decode to the same statuses and deltas.
+func lemmaTWCCChunking(a, b []byte) (p, q TransportLayerCC, err, err2 error) {
+	err = p.Unmarshal(a)
+	err2 = q.Unmarshal(b)
+	return p, q, err, err2
+}
+
+// lemmaRoundTripTWCC (C02): decode(encode(p)) == p for a packet whose header is consistent with its content.
+func lemmaRoundTripTWCC(p TransportLayerCC) (q TransportLayerCC, err, err2 error) {
+	b, err := p.Marshal()
+	if err != nil {
+		return q, err, nil
+	}
+	err2 = q.Unmarshal(b)
+	return q, nil, err2
+}
+
+// lemmaReencodeTWCC (C09): encode(decode(raw)) decodes to the same packet again.
+func lemmaReencodeTWCC(raw []byte) (p, q TransportLayerCC, err, err2, err3 error) {
+	if err = p.Unmarshal(raw); err != nil {
+		return p, q, err, nil, nil
+	}
+	out, err2 := p.Marshal()
+	if err2 != nil {
+		return p, q, nil, err2, nil
+	}
+	err3 = q.Unmarshal(out)
+	return p, q, nil, nil, err3
+}
+
+func seqEqU16(a, b []uint16) bool { return seqEq(a, b) }
+
+// specTWCCCanonical: the header is consistent with the content (C09's scope for this type): the declared
+// length is exactly the content padded to a 32-bit boundary and the padding flag is set iff padding exists.
+func specTWCCCanonical(raw []byte) bool {
+	r := specTWCCDecode(raw)
+	if !r.ok {
+		return false
+	}
+	n := 20 + 2*len(r.chunks)
+	for _, t := range r.dtypes {
+		n += int(t)
+	}
+	return r.total == n+specPad4(n) && (raw[0]&0x20 != 0) == (specPad4(n) > 0)
+}
